@@ -1,3 +1,4 @@
+import OcppProps.L3Fine
 import OcppProps.C16Fine
 import OcppProps.CDSim
 import OcppModel.ServerDisp
@@ -112,6 +113,10 @@ theorem fine_never_panics (ls : List Ocpp.CdRestart.Label) (s : Ocpp.CdRestart.S
 theorem fine_never_wiped (ls : List Ocpp.CdRestart.Label) (s : Ocpp.CdRestart.St) (h : Ocpp.CdRestart.runL {} ls = some s) :
     s.wiped = false := C16Fine.never_wiped ls s h
 
+/-- no request is pushed into the queue of a stopped dispatcher -/
+theorem fine_never_late_push (ls : List Ocpp.CdRestart.Label) (s : Ocpp.CdRestart.St) (h : Ocpp.CdRestart.runL {} ls = some s) :
+    s.latePush = false := C16Fine.never_late_push ls s h
+
 /-- at most one message pump is alive; a running dispatcher has the pump of its own session -/
 theorem fine_one_pump (ls : List Ocpp.CdRestart.Label) (s : Ocpp.CdRestart.St) (h : Ocpp.CdRestart.runL {} ls = some s) :
     s.live.length ≤ 1 ∧ ∀ k, s.field = some k → s.live = [k] :=
@@ -125,6 +130,9 @@ theorem fine_stopped_at_once (s s' : Ocpp.CdRestart.St) (hr : s.repaired = true)
 theorem fine_old_send_panics :
     (Ocpp.CdRestart.runL { repaired := false } [.start, .sendCheck, .stop, .sendWake]).map (·.panicked) = some true :=
   C16Fine.old_send_panics
+theorem fine_old_late_push :
+    (Ocpp.CdRestart.runL { repaired := false } [.start, .sendCheck, .stop, .pumpExit 0, .sendWake]).map (·.latePush) = some true :=
+  C16Fine.old_late_push
 theorem fine_old_restart_wiped :
     (Ocpp.CdRestart.runL { repaired := false } [.start, .stop, .start, .pumpExit 0]).map (fun s => (s.wiped, s.field, s.live)) =
       some (true, none, [1]) := C16Fine.old_restart_wiped
@@ -134,5 +142,36 @@ theorem fine_old_two_pumps :
 
 example : (Ocpp.CdRestart.runL {} [.start, .sendCheck, .stop, .sendWake, .pumpExit 0, .start, .sendCheck, .sendWake]).map
     (fun s => (s.field, s.live, s.panicked, s.wiped)) = some (some 1, [1], false, false) := by decide
+
+/-! ### Protocol layer: outcomes and callbacks across Stop and Start (`OcppProps/L3Fine.lean`, small-step model
+`Ocpp.L3Restart` of charge point / charging station after /repo eacc875 and 656d0b0) -/
+
+/-- **partial** (assumes that no goroutine is pre-empted between two adjacent statements across a restart: the goroutine of
+    a stopped session takes no further outcome, and `Stop` does not fall between a goroutine's channel receive and its
+    `Dequeue`): every outcome is handed to the callback of its own request - nothing of a stopped session reaches a
+    callback of a later one - for every interleaving of sends, answers, callback goroutines, `Stop` and `Start` -/
+theorem l3_deliveries_match_partial (ls : List Ocpp.L3Restart.Label) (s : Ocpp.L3Restart.St) (h : Ocpp.L3Restart.runL {} ls = some s) :
+    Ocpp.L3Restart.matched s = true := L3Fine.deliveries_match_partial ls s h
+
+/-- after `Stop` nothing of the session is left: no callback, no outcome, no outstanding request -/
+theorem l3_stop_leaves_nothing (ls : List Ocpp.L3Restart.Label) (s : Ocpp.L3Restart.St) (h : Ocpp.L3Restart.runL {} ls = some s)
+    (hc : s.cur = none) : s.chan = [] ∧ s.cbs = [] ∧ s.out = [] := L3Fine.stop_leaves_nothing ls s h hc
+
+/-- what is missing from the full statement: the two assumptions dropped one at a time (model-level interleavings, not
+    reproduced on the implementation) -/
+theorem l3_without_priority :
+    (Ocpp.L3Restart.runL { prio := false } [.start, .send, .answer, .take, .deliver, .stop, .start, .send, .answer, .oret 1, .otake 1,
+      .send, .answer, .take, .deliver, .odeliver 1]).map Ocpp.L3Restart.matched = some false := L3Fine.without_priority
+theorem l3_without_atomic_take :
+    (Ocpp.L3Restart.runL { atomicTake := false } [.start, .send, .answer, .take, .stop, .start, .send, .odeliver 1]).map
+      Ocpp.L3Restart.matched = some false := L3Fine.without_atomic_take
+
+/-- before 656d0b0: a stale outcome of the stopped session reaches the first callback of the next one (rounds `c16_inflight`) -/
+theorem l3_old_stale_outcome :
+    (Ocpp.L3Restart.runL { drain := false } [.start, .send, .answer, .take, .deliver, .send, .answer, .stop, .start, .send, .take, .deliver]).map
+      (fun s => (s.log, Ocpp.L3Restart.matched s)) = some ([((1, 0), (1, 0)), ((1, 1), (2, 2))], false) := L3Fine.old_stale_outcome
+
+example : (Ocpp.L3Restart.runL {} [.start, .send, .send, .answer, .take, .deliver, .stop, .start, .send, .answer, .oret 1, .oexit 1, .take, .deliver]).map
+    (fun s => (s.log, Ocpp.L3Restart.matched s)) = some ([((1, 0), (1, 0)), ((2, 2), (2, 2))], true) := by decide
 
 end C16
